@@ -338,6 +338,10 @@ class Comm:
         import numpy as np
 
         me_c = self.Get_rank()
+        arr_ = np.asarray(buf)
+        if not (arr_.flags.c_contiguous or arr_.flags.f_contiguous):
+            # mpi4py refuses strided buffers on the calling rank, before any communication
+            raise ValueError("ndarray is not contiguous")
         data = self._collective("Bcast", np.array(buf, copy=True) if me_c == root else None)
         if me_c != root:
             src = data[root]
